@@ -20,7 +20,7 @@ import (
 func init() {
 	register(&propDef{
 		ID:          "C15",
-		Explanation: "Equality with single-file generation over all trees, worker counts and schedules is not decided. Decides the structural reasons it is true: R1 every field of the event handler that has a sibling `<field>Mutex` is accessed (outside the constructor) only with that mutex in the must-held set; R2 every path handed to the file writer, os.WriteFile, os.Create or os.Remove in the per-file handler derives from that event's own file name through TrimSuffix+constant suffix or the development text-file name function (no other file is touched); R3 the bytes written are the result of format.Source over the generator's buffer, the hash gating the write is computed over that same value, and the write sits inside the hash test; R4 the handler's error reaches the error channel, every non-fatal error increments the counter, the command's final return is non-nil when the counter is positive, and in the per-file generator the errors of parsing, generation, formatting and both writes reach a return; R5 both directory walks consult skipdir.ShouldSkip for directories and return SkipDir, and ShouldSkip's true-returns are exactly vendor, node_modules, dot- and underscore-prefixed; R6 (VTA call graph) nothing reachable from generator.Generate or the parser's Parse calls time.Now, math/rand or os.Getenv, and the generator does not range over a map; R7 the wait-group Add and the semaphore acquire precede the `go` statement, the worker defers Done and the release, and the post-generation channel is closed only after the wait. R8 a slice field of the handler that per-event methods append to without copying is handed to the constructor without declared spare capacity (no make(…, len, cap>len), no re-slice). R9 every output file is replaced, not overwritten in place: os.WriteFile / os.Create, or os.OpenFile with O_TRUNC (constant-evaluated flags). R10 the lazy-mode `already up to date` test is a strict modification-time comparison. R11 the file name compiled into generated code is computed by filepath.Rel (no string surgery on paths). R12 nothing on the per-file path (the function that calls generator.Generate, its package-local callees and callers) constructs a FatalError, the one kind of error at which the command's error loop stops: a file that cannot be generated, formatted or written fails the command without ending the run. NOT decided: file-system races with other processes, fsnotify delivery, spare capacity produced by append's own growth. R13 no value that holds a sync primitive by value is copied in the generate command's packages; R14 an append on shared storage (a field reached through a receiver or parameter, a package-level variable) whose result is kept elsewhere is accepted only if the origin of that slice — followed through locals, parameters, private fields and helpers — is neither a make with capacity beyond its length nor a slice expression without explicit capacity (generalises R8). R15/R16 no error result of the generate command is dropped or detected and then not reported; R17 every return leaves locks released; R18 closures started later (timers, goroutines) read no loop variable that has moved on; R19 modification times are kept and compared as time.Time; R20 an upsert records the value it reports on.",
+		Explanation: "Equality with single-file generation over all trees, worker counts and schedules is not decided. Decides the structural reasons it is true: R1 every field of the event handler that has a sibling `<field>Mutex` is accessed (outside the constructor) only with that mutex in the must-held set; R2 every path handed to the file writer, os.WriteFile, os.Create or os.Remove in the per-file handler derives from that event's own file name through TrimSuffix+constant suffix or the development text-file name function (no other file is touched); R3 the bytes written are the result of format.Source over the generator's buffer, the hash gating the write is computed over that same value, and the write sits inside the hash test; R4 the handler's error reaches the error channel, every non-fatal error increments the counter, the command's final return is non-nil when the counter is positive, and in the per-file generator the errors of parsing, generation, formatting and both writes reach a return; R5 both directory walks consult skipdir.ShouldSkip for directories and return SkipDir, and ShouldSkip's true-returns are exactly vendor, node_modules, dot- and underscore-prefixed; R6 (VTA call graph) nothing reachable from generator.Generate or the parser's Parse calls time.Now, math/rand or os.Getenv, and the generator does not range over a map; R7 the wait-group Add and the semaphore acquire precede the `go` statement, the worker defers Done and the release, and the post-generation channel is closed only after the wait. R8 a slice field of the handler that per-event methods append to without copying is handed to the constructor without declared spare capacity (no make(…, len, cap>len), no re-slice). R9 every output file is replaced, not overwritten in place: os.WriteFile / os.Create, or os.OpenFile with O_TRUNC (constant-evaluated flags). R10 the lazy-mode `already up to date` test is a strict modification-time comparison. R11 the file name compiled into generated code is computed by filepath.Rel (no string surgery on paths). R12 nothing on the per-file path (the function that calls generator.Generate, its package-local callees and callers) constructs a FatalError, the one kind of error at which the command's error loop stops: a file that cannot be generated, formatted or written fails the command without ending the run. NOT decided: file-system races with other processes, fsnotify delivery, spare capacity produced by append's own growth. R13 no value that holds a sync primitive by value is copied in the generate command's packages; R14 an append on shared storage (a field reached through a receiver or parameter, a package-level variable) whose result is kept elsewhere is accepted only if the origin of that slice — followed through locals, parameters, private fields and helpers — is neither a make with capacity beyond its length nor a slice expression without explicit capacity (generalises R8). R15/R16 no error result of the generate command is dropped or detected and then not reported; R17 every return leaves locks released; R18 closures started later (timers, goroutines) read no loop variable that has moved on; R19 modification times are kept and compared as time.Time; R20 an upsert records the value it reports on. R20 also follows the test-and-set through forwarding (a method of the registry's own type, a generic helper) and decides computed answers by the path's conditions.",
 		Assumptions: []string{"format.Source is deterministic", "sha256 collisions do not occur"},
 		Trusted:     []string{"go/types", "x/tools go/packages, go/cfg, go/ssa, callgraph/vta"},
 		Run:         runC15,
@@ -1210,6 +1210,13 @@ func sharedSliceAppends(c *Ctx, rule string) {
 // meaning). Without truncation, generating a shorter file over a longer one leaves the tail of the old content: the
 // result is not the generation of the template, and a second run does not repair it.
 func outputFilesReplaced(c *Ctx, rule string) {
+	outputFilesReplacedIn(c, rule, "/cmd/templ/generatecmd", 2)
+}
+
+// outputFilesReplacedIn: every file the packages (path contains pkgPart) open for writing is opened so that the new
+// content REPLACES the old: os.WriteFile / os.Create / an atomic rename-into-place, or os.OpenFile with O_TRUNC (or
+// O_APPEND / O_EXCL, which never leave an old tail either).
+func outputFilesReplacedIn(c *Ctx, rule string, pkgPart string, floor int) {
 	n := 0
 	var osPkg *types.Package
 	for _, p := range c.roots {
@@ -1232,7 +1239,7 @@ func outputFilesReplaced(c *Ctx, rule string) {
 	}
 	oTrunc, oAppend, oExcl, oWronly, oRdwr := flag("O_TRUNC"), flag("O_APPEND"), flag("O_EXCL"), flag("O_WRONLY"), flag("O_RDWR")
 	for _, p := range c.roots {
-		if !strings.Contains(p.PkgPath, "/cmd/templ/generatecmd") {
+		if !strings.Contains(p.PkgPath, pkgPart) {
 			continue
 		}
 		info := p.TypesInfo
@@ -1248,7 +1255,7 @@ func outputFilesReplaced(c *Ctx, rule string) {
 					return true
 				}
 				switch fullName(fn) {
-				case "os.WriteFile", "os.Create":
+				case "os.WriteFile", "os.Create", "github.com/natefinch/atomic.WriteFile":
 					n++
 					c.ok(rule, fmt.Sprintf("%s|%s", funcKey(p, fd), fullName(fn)), c.pos(call.Pos()), "truncating writer")
 				case "os.OpenFile":
@@ -1266,14 +1273,14 @@ func outputFilesReplaced(c *Ctx, rule string) {
 					writes := v&oWronly != 0 || v&oRdwr != 0
 					okFlags := !writes || v&oTrunc != 0 || v&oAppend != 0 || v&oExcl != 0
 					c.check(okFlags, rule, fmt.Sprintf("%s|os.OpenFile#%d|replaces-content", funcKey(p, fd), ord), c.pos(call.Pos()), "opened with "+types.ExprString(call.Args[1]),
-						fmt.Sprintf("%s opens an output file for writing with %s — no O_TRUNC: when the new content is shorter than the existing file, the tail of the old content stays behind it; the command exits 0 but the file is not the generation of the template (and not valid Go), and running it again does not repair it", fd.Name.Name, types.ExprString(call.Args[1])))
+						fmt.Sprintf("%s opens an output file for writing with %s — no O_TRUNC: when the new content is shorter than the existing file, the tail of the old content stays behind it; the command exits 0 but the file is not what was computed for it (a generated file is not valid Go, a formatted template is followed by the rest of its unformatted self), and running it again does not repair it", fd.Name.Name, types.ExprString(call.Args[1])))
 				}
 				return true
 			})
 		}
 	}
 	c.count("output_file_open_sites", n)
-	c.floor(rule, 2)
+	c.floor(rule, floor)
 }
 
 // lazySkipIsStrict: the lazy-mode skip ("the Go file is already up to date") compares modification times strictly: the
